@@ -191,7 +191,7 @@ func TestC08(t *testing.T) {
 		t.Skip("needs the race build")
 	}
 	st := statsFor("C08")
-	st.Rule = "a sequential prefix builds state; then either the handle is kept warm or it is closed and re-opened so that the workers' calls are the FIRST access after Open; then 2-4 goroutines x 1-4 calls run concurrently, each program several times under GOMAXPROCS 2/4/16, in sync, cached and async configurations (flusher running on a 50x scaled clock), with synchronisation-free random yields before every file-system call of the package. The binary is built with -race from a copy in which only time.Sleep is redirected; workers share nothing with each other in the harness (own event buffers, monotonic clock). Two program classes: 'lin' - calls whose inputs/outputs are fully observable atomic pieces (Get, GetByUUID, Exist, Count, All, AssignAll, AssignIndex, Search+Len, InsertOrUpdate, update, Delete, InsertOrUpdateMany, Schema, Control): the recorded call/return history, closed by a sequential sweep (Count, All, Get of every uuid), must be accepted by porcupine against the reference model; additional generated program classes: 'contention' (writers race for the same unique values with the conflicting member not first in their batches), 'readers' (read-only workers, different patterns on the same indexed fields), 'flushers' (concurrent Flush/FlushAll/FlushAllAndCommit/Commit of the same pending objects: every call must succeed); a second collection on the handle and settings switches (Create) are worker ops as well; after every execution a final-consistency invariant holds: everything flushed => Control nil, Count == All == object files, every file decodes to what the handle reads. 'race' - ALL public entry points incl. And/Or chains, Collect, One, Search.Delete, DeleteAll, Bulk, Flush*, Commit, Create, Repair: no race report, no crash. Oracle: (1) the race detector (GORACE halt_on_error: the process stops at the first report, the journaled case is the replay), (2) porcupine (Unknown = inconclusive). Non-trivial: >= 2 workers with >= 1 writer whose call overlaps another call in real time. Distinct by program hash."
+	st.Rule = "a sequential prefix builds state; then either the handle is kept warm or it is closed and re-opened so that the workers' calls are the FIRST access after Open; then 2-4 goroutines x 1-4 calls run concurrently, each program several times under GOMAXPROCS 2/4/16, in sync, cached and async configurations (flusher running on a 50x scaled clock), with synchronisation-free random yields before every file-system call of the package. The binary is built with -race from a copy in which only time.Sleep is redirected; workers share nothing with each other in the harness (own event buffers, monotonic clock). Two program classes: 'lin' - calls whose inputs/outputs are fully observable atomic pieces (Get, GetByUUID, Exist, Count, All, AssignAll, AssignIndex, Search+Len, InsertOrUpdate, update, Delete, InsertOrUpdateMany, Schema, Control): the recorded call/return history, closed by a sequential sweep (Count, All, Get of every uuid), must be accepted by porcupine against the reference model; additional generated program classes: 'contention' (writers race for the same unique values with the conflicting member not first in their batches), 'readers' (read-only workers, different patterns on the same indexed fields), 'flushers' (concurrent Flush/FlushAll/FlushAllAndCommit/Commit of the same pending objects: every call must succeed), 'batchreaders' (one worker rewrites all objects in one batch while the others read them in batch order with the cache on; checked by porcupine), 'creators' (all workers create the same new collection first and insert into it: every accepted insert must be counted); a second collection on the handle and settings switches (Create) are worker ops as well; after every execution a final-consistency invariant holds: everything flushed => Control nil, Count == All == object files, every file decodes to what the handle reads. 'race' - ALL public entry points incl. And/Or chains, Collect, One, Search.Delete, DeleteAll, Bulk, Flush*, Commit, Create, Repair: no race report, no crash. Oracle: (1) the race detector (GORACE halt_on_error: the process stops at the first report, the journaled case is the replay), (2) porcupine (Unknown = inconclusive). Non-trivial: >= 2 workers with >= 1 writer whose call overlaps another call in real time. Distinct by program hash."
 	st.Assumptions = append(baseAssumptions(), "schedules are sampled, not enumerated; the race detector is happens-before based, so a missing lock is reported whenever both accesses occur in one run, whatever the interleaving")
 	prof := c08Profile()
 	rapid.Check(t, func(rt *rapid.T) {
@@ -203,8 +203,10 @@ func TestC08(t *testing.T) {
 			kinds = linKinds
 		}
 		genConc(g, prog, kinds, 4, 4)
-		if lin && g.pct("contend") < 30 {
+		if x := g.pct("contend"); lin && x < 30 {
 			genContend(g, prog)
+		} else if lin && x < 45 {
+			genBatchReaders(g, prog)
 		}
 		if !lin {
 			switch x := g.pct("class"); {
@@ -212,6 +214,8 @@ func TestC08(t *testing.T) {
 				genReaders(g, prog)
 			case x < 27:
 				genFlushers(g, prog)
+			case x < 37:
+				genCreators(g, prog)
 			}
 		}
 		prog.Aux["lin"] = lin
@@ -358,6 +362,28 @@ func caseC08(t TB, prog *Program) {
 				st.Add("histories_accepted_by_porcupine", 1)
 			}
 		}
+		if on, _ := prog.Aux["creators"].(bool); on {
+			// every accepted insert into the collection the workers raced to create is stored
+			accepted := 0
+			for _, ev := range hist {
+				if ev.Op.Kind == "o2create" && ev.Class != OK {
+					e.failf("concurrent first Create of a collection failed: %s (execution %d)", ev.Class, rep)
+				}
+				if ev.Op.Kind == "o2insert" {
+					if ev.Class != OK {
+						e.failf("insert into a collection this worker had created before failed: %s (execution %d)", ev.Class, rep)
+					}
+					accepted++
+				}
+			}
+			if n, err := db.Count(&Other2{}); err != nil || n != accepted {
+				e.failf("%d workers created a new collection concurrently and inserted %d objects, all accepted; Count reports %d (err=%v) (execution %d)", len(ws), accepted, n, err, rep)
+			}
+			if objs, err := db.All(&Other2{}); err != nil || len(objs) != accepted {
+				e.failf("%d workers created a new collection concurrently and inserted %d objects, all accepted; All returns %d (err=%v) (execution %d)", len(ws), accepted, len(objs), err, rep)
+			}
+			flags["class-creators"] = 1
+		}
 		finalConsistency(e, db)
 		e.Teardown()
 		st.Add("executions", 1)
@@ -457,4 +483,60 @@ func genFlushers(g *G, prog *Program) {
 	prog.Aux["workers"] = ws
 	prog.Aux["flushers"] = true
 	prog.Aux["warm"] = true
+}
+
+// genBatchReaders: one worker rewrites all stored objects in one batch, the others read them
+// one by one in batch order, slightly behind: a reader that sees the new value of an earlier
+// member and then the old value of a later one has looked into the middle of the batch
+// (porcupine rejects the history). The cache is on, so reads may be served without the file.
+func genBatchReaders(g *G, prog *Program) {
+	prog.Cfg.Cache = true
+	prog.Cfg.Async = nil
+	prog.Cfg.Cons = map[string]Cons{"I64": {Index: true}}
+	n := 3 + g.uni(3, "brobjs")
+	prog.Ops = nil
+	for i := 0; i < n; i++ {
+		prog.Ops = append(prog.Ops, Op{Op: "insert", D: &Doc{I64: int64(i), S2: "old"}})
+	}
+	var ws [][]COp
+	var writer []COp
+	for r, m := 0, 1+g.uni(2, "brbatches"); r < m; r++ {
+		var batch []COp
+		for i := 0; i < n; i++ {
+			batch = append(batch, COp{Kind: "update", Ref: i, Sets: []FieldSet{{Path: "S2", V: Val{K: "s", S: fmt.Sprint("new", r)}}}})
+		}
+		writer = append(writer, COp{Kind: "many", Batch: batch})
+	}
+	ws = append(ws, writer)
+	for w, nr := 0, 1+g.uni(3, "brreaders"); w < nr; w++ {
+		var ops []COp
+		for r, m := 0, 1+g.uni(3, "brrounds"); r < m; r++ {
+			for i := 0; i < n; i++ {
+				ops = append(ops, COp{Kind: pickU(g, []string{"get", "getByUUID"}, "brget"), Ref: i})
+			}
+		}
+		ws = append(ws, ops)
+	}
+	prog.Aux["workers"] = ws
+	prog.Aux["batchreaders"] = true
+	prog.Aux["warm"] = true
+}
+
+// genCreators: every worker creates the same, not yet existing collection and then inserts
+// into it: whoever comes second must find the collection of the first, not replace it.
+func genCreators(g *G, prog *Program) {
+	nw := 2 + g.uni(3, "crworkers")
+	var ws [][]COp
+	for w := 0; w < nw; w++ {
+		ops := []COp{{Kind: "o2create"}}
+		for i, n := 0, 1+g.uni(3, "crins"); i < n; i++ {
+			ops = append(ops, COp{Kind: "o2insert", Ref: i})
+		}
+		if g.pct("crtail") < 40 {
+			ops = append(ops, g.COp([]string{"insert", "count", "all"}))
+		}
+		ws = append(ws, ops)
+	}
+	prog.Aux["workers"] = ws
+	prog.Aux["creators"] = true
 }
